@@ -41,9 +41,12 @@ def gen_config(rng, out):
     lines += ["kind %d" % rng.choice([0, 1, 2, 2]), "trig %d" % trig, "caller %d" % rng.randint(1, 5)]
     ctl = []
     for run in range(rng.randint(1, 3)):
-        if rng.random() < 0.15:
+        # re-configuration while stopped: any number of trigger toggles (incl. off-and-on-again) before the next start
+        for _ in range(rng.choice([0, 0, 0, 1, 2, 2, 3])):
             trig = 1 - trig
             ctl += ["settrig", str(trig)]
+            if rng.random() < 0.3:
+                ctl += ["yield", str(rng.choice([0, 2, 8]))]
         ctl += ["start"]
         for _ in range(rng.randint(0, 5)):
             r = rng.random()
